@@ -1,4 +1,5 @@
 import LiquidVerif.Lemmas.Inherit
+import LiquidVerif.Lemmas.InheritFlat
 /-!
 # C18 — template inheritance resolves blocks to the most-derived definition
 
@@ -154,6 +155,11 @@ theorem dup_rejected_partial (lim : Nat) (ld : Loader) (name : String) (data : S
   simp only [renderTemplate, hl, hi, renderTops_pre, renderTops, hpre, buildFrom_reaches_dup hreach hdup []]
   rfl
 
+/-- `{% extends 'p' %}{% block a %}{% for i in (1..2) %}{{ block.super }}{% endfor %}{% endblock %}` -/
+def capChild : Template := ⟨[.ext "p", .node (.block "a" false [.loop "i" 2 [.super]])]⟩
+/-- `{% block a %}{{ i }}{% endblock %}` -/
+def capParent : Template := ⟨[.node (.block "a" false [.var "i"])]⟩
+
 /-- `{% block a %}x{% endblock %}{% block a %}y{% endblock %}` -/
 def dupTemplate : Template :=
   ⟨[.node (.block "a" false [.text "x"]), .node (.block "a" false [.text "y"])]⟩
@@ -238,6 +244,76 @@ theorem flatten_unbounded_example (lim : Nat) (data : Scope) :
 example : Linked [("c", invChild), ("p", invParent)] [] invChild [invChild, invParent] :=
   .step [] invChild "p" invParent _ (by decide) (by decide) (by decide) (by simp)
     (.root _ invParent (by decide) (by decide))
+
+/-! ### the purely syntactic flattening (deepening round) -/
+
+/-- `flatten` (the declarative reading) is the plain renderer applied to the *syntactically* flattened template:
+`flattenSyn lim chain` is computed from the templates alone (no render data, no scopes) and contains no
+`extends`, `block` or `block.super`. -/
+theorem flatten_eq_flattenSyn (lim : Nat) (chain : List Template) (data : Scope) :
+    flatten lim chain data = renderPlains none data (flattenSyn lim chain) :=
+  (render_eq_flat lim (defsOf chain)).2.2 0 none [] data (rootOf chain)
+
+/-- **Sentence 1, syntactic form**: rendering a leaf = rendering the block-free template `flattenSyn lim chain`
+(the root with every block replaced by its most-derived body, `block.super` inlined, nested blocks resolved
+again) with the plain renderer — for every chain, every nesting, every budget. Where the budget runs out the
+flattened template has a `raise contextDepth` node, exactly where the implementation's `context.copy` guard
+fires. -/
+theorem inherit_eq_flattenSyn (lim : Nat) (ld : Loader) (name : String) (data : Scope) (t : Template)
+    (pre : List Item) (p : String) (post : List Top) (ts : List Template)
+    (hl : lookup ld name = some t) (hi : t.items = pre.map .node ++ .ext p :: post)
+    (hc : Linked ld [] t ts) :
+    renderTemplate lim ld name data
+      = seqOut (renderPlains none data (flatItems lim (stackOf []) 0 [] pre))
+          (renderPlains none data (flattenSyn lim ts)) := by
+  rw [inherit_eq_flatten lim ld name data t pre p post ts hl hi hc, flatten_eq_flattenSyn,
+    (render_eq_flat lim (stackOf [])).2.2 0 none [] data pre]
+
+/-- **Finiteness condition.** `finiteWithin lim chain` (decidable: the flattened template has no
+`raise contextDepth` node) says the chain has a finite flattening inside the budget; then the render of the chain
+never fails with ContextDepthError and the flattened template is a genuine finite template. -/
+theorem finite_no_depth_error (lim : Nat) (chain : List Template) (data : Scope)
+    (h : finiteWithin lim chain = true) : flatten lim chain data ≠ .error .contextDepth := by
+  intro he
+  rw [flatten_eq_flattenSyn] at he
+  have := depth_error_needs_raise.2.1 none data _ he
+  simp [finiteWithin, this] at h
+
+/-- The condition is needed: the inverted-nesting chain of `flatten_unbounded_example` has no finite flattening
+within any budget. -/
+theorem flattenSyn_unbounded_example (lim : Nat) : finiteWithin lim [invChild, invParent] = false := by
+  cases h : finiteWithin lim [invChild, invParent] with
+  | false => rfl
+  | true => exact absurd (flatten_unbounded_example lim []) (finite_no_depth_error lim _ [] h)
+
+/-- **Plain Liquid.** When no `{{ block.super }}` is written under a `{% for %}` of the same block definition
+(`hygienics`, decidable on the flattened template) the scope annotations are redundant: the chain renders like
+the annotation-free template `eraseScopes (flattenSyn lim chain)`, which consists of text, variable output,
+`for` and raise nodes only — an ordinary template that needs no inheritance machinery at all. -/
+theorem inherit_eq_plain_template (lim : Nat) (chain : List Template) (data : Scope)
+    (hh : hygienics (flattenSyn lim chain) = true) :
+    flatten lim chain data = renderPlains none data (eraseScopes (flattenSyn lim chain)) := by
+  rw [flatten_eq_flattenSyn]
+  exact erase_scope_aux.2.1 none data _ hh (Or.inr (Or.inl rfl))
+
+/-- The hygiene hypothesis is needed: with `block.super` under a `for` whose variable the parent definition reads,
+the annotation-free inlining prints the loop variable where the implementation (and the model) print nothing.
+Child `{% block a %}{% for i in (1..2) %}{{ block.super }}{% endfor %}{% endblock %}`, parent
+`{% block a %}{{ i }}{% endblock %}`. -/
+theorem erase_scope_counterexample :
+    ¬ (∀ (lim : Nat) (chain : List Template) (data : Scope),
+        flatten lim chain data = renderPlains none data (eraseScopes (flattenSyn lim chain))) := by
+  intro h
+  have h1 := h 30 [capChild, capParent] []
+  have hd : defsOf [capChild, capParent] "a"
+      = [⟨false, [.loop "i" 2 [.super]]⟩, ⟨false, [.var "i"]⟩] := by rfl
+  have hr : rootOf [capChild, capParent] = [.block "a" false [.var "i"]] := by rfl
+  rw [flatten_eq_flattenSyn] at h1
+  unfold flattenSyn at h1
+  rw [hr] at h1
+  generalize defsOf [capChild, capParent] = res at hd h1
+  simp [flatItems, flatItem, hd, eraseScopes, eraseScope, renderPlains_cons, renderPlains_nil, renderPlain,
+    renderPlainLoop_succ, renderPlainLoop_zero, seqOut, lookupVar] at h1
 
 /-! ### non-vacuity: the hypotheses of the theorems are met by concrete chains -/
 
